@@ -30,7 +30,7 @@ FIELD = {
     ("shared::util::itime::ITimeNanosecond", None, "nanosecond"): (0, 86_399_999_999_999),
     ("shared::util::itime::IWeekday", None, "offset"): (1, 7),
     ("shared::PosixTime", None, "second"): (-604799, 604799),
-    ("shared::PosixOffset", None, "second"): (-89999, 89999),
+    ("shared::PosixOffset", None, "second"): (-93599, 93599),
     ("shared::PosixDay", "JulianOne", "0"): (1, 365),
     ("shared::PosixDay", "JulianZero", "0"): (0, 365),
     ("shared::PosixDay", "WeekdayOfMonth", "month"): (1, 12),
